@@ -7,7 +7,7 @@ import numpy as np
 from . import common, place, xt
 from .xt import veq
 
-VMODES = ["ramp", "extreme", "minimal", "long"]
+VMODES = ["ramp", "extreme", "minimal", "long", "emptyref"]  # emptyref: references bound to arrays without items (types with such references only)
 PY_FORMS = ["py"]
 ND = ["nd", "ndF", "ndS", "ndD", "ndR", "ndFD", "ndTD", "ndB"]
 XOBJ = ["xobj-same", "xobj-other", "xobj-ctx", "xobj-kind", "xobj-nested", "xobj-slack", "ref-same", "ref-foreign", "xobj-view", "xobj-nested-view", "xobj-twin", "xobj-capslack",
@@ -407,6 +407,8 @@ def enumerate_cases(types, vmodes, forms, places_for):
         for vmode in vmodes:
             if vmode == "long" and not has_str:
                 continue  # identical to ramp when there is no string
+            if vmode == "emptyref" and not any(s_[0] in ("R", "U") and any(m[0] == "A" and any(d is None for d in m[2]) for m in ([s_[1]] if s_[0] == "R" else s_[1])) for s_ in xt.subtypes(t)):
+                continue  # no reference that can denote an array with a dynamic axis
             v = xt.gen(t, vmode)
             for form in forms_for(t, v, forms):
                 for pname in places_for(t, form):
